@@ -97,31 +97,31 @@ func getKey(id string) *Key {
 
 // CertSpec is the feature record a certificate is built from.
 type CertSpec struct {
-	CN       string
-	KeyID    string
-	Serial   *big.Int
-	BC       bool // emit basic constraints
-	IsCA     bool
-	MaxPathLen     int
-	MaxPathLenZero bool
-	KUPresent  bool
-	KUCritical bool
-	KU         x509.KeyUsage
-	EKU        []x509.ExtKeyUsage
-	UnknownEKU []asn1.ObjectIdentifier
-	EKUCritical bool
+	CN                  string
+	KeyID               string
+	Serial              *big.Int
+	BC                  bool // emit basic constraints
+	IsCA                bool
+	MaxPathLen          int
+	MaxPathLenZero      bool
+	KUPresent           bool
+	KUCritical          bool
+	KU                  x509.KeyUsage
+	EKU                 []x509.ExtKeyUsage
+	UnknownEKU          []asn1.ObjectIdentifier
+	EKUCritical         bool
 	NotBefore, NotAfter time.Time
-	OCSP     []string
-	CRLDP    []string
-	Freshest bool // add a freshest-CRL extension to the certificate
-	SigAlg   x509.SignatureAlgorithm
+	OCSP                []string
+	CRLDP               []string
+	Freshest            bool // add a freshest-CRL extension to the certificate
+	SigAlg              x509.SignatureAlgorithm
 	// deviations in how it is issued
-	IssuerCN    string // if non-empty: name the issuer differently from the real parent's subject
-	ForeignSig  bool   // sign with a twin of the parent (same subject, different key)
-	CorruptSig  bool   // flip a bit in the signature
-	SelfSign    bool   // ignore parent: self-signed
-	NoSKI       bool
-	ExtraExt    []pkix.Extension
+	IssuerCN   string // if non-empty: name the issuer differently from the real parent's subject
+	ForeignSig bool   // sign with a twin of the parent (same subject, different key)
+	CorruptSig bool   // flip a bit in the signature
+	SelfSign   bool   // ignore parent: self-signed
+	NoSKI      bool
+	ExtraExt   []pkix.Extension
 	// the issuer field is the parent's subject in another DER encoding (the RDNs in reverse order): byte-wise a different
 	// name, rendered as the same string by pkix.Name.String()
 	IssuerReencoded bool
